@@ -42,6 +42,9 @@ def new_astorage(c, name, layer):
         'rev': z3.Array(fresh_name(name + '_rev'), I, AIB),
         'ltid': z3.Int(fresh_name(name + '_ltid')),
         'in_txn': z3.BoolVal(False),
+        # tid given explicitly to tpc_begin for the transaction in progress (-1: none; the storage
+        # then chooses one later than its own last tid)
+        'pending_tid': z3.Int(fresh_name(name + '_pending_tid')),
     }, {'name': name, 'layer': layer, 'calls': []})
 
 
@@ -112,6 +115,12 @@ def astorage_method(c, interp, ref, o, name, args, kwargs, node):
             o.f['in_txn'] = z3.Bool(fresh_name('delegate_in_txn'))
             raise RaiseSig(VExc('ZODB.POSException:StorageError'))
         o.f['in_txn'] = z3.BoolVal(True)
+        if len(args) > 1 and isinstance(args[1], VBytes) and args[1].conc_len() == 8:
+            o.f['pending_tid'] = bytes_num(c, args[1], node)
+        elif len(args) > 1 or kwargs:
+            o.f['pending_tid'] = z3.Int(fresh_name('explicit_tid'))
+        else:
+            o.f['pending_tid'] = z3.IntVal(-1)
         return NONE
     if name == 'tpc_vote':
         return NONE
@@ -121,7 +130,10 @@ def astorage_method(c, interp, ref, o, name, args, kwargs, node):
     if name == 'tpc_finish':
         o.f['in_txn'] = z3.BoolVal(False)
         t = z3.Int(fresh_name('newtid'))
-        c.assume(z3.And(t > o.f['ltid'], t < 2 ** 63))
+        # A-ISTORAGE: the new tid is later than every earlier tid of this storage; a tid given to
+        # tpc_begin (later than the last one) is the tid of the transaction
+        c.assume(z3.And(t < 2 ** 63, z3.If(o.f['pending_tid'] > o.f['ltid'], t == o.f['pending_tid'],
+                                           t > o.f['ltid'])))
         o.f['ltid'] = t
         return num_to_bytes(c, t, 8, 'tid')
     if name in ('getName', 'sortKey'):
@@ -484,6 +496,24 @@ class DemoNewOid(DemoSpec):
         return {0: LoopSpec(inv=inv, havoc=havoc, kinds={'oid': lambda c, fr: NONE})}
 
 
+class NewTid(Spec):
+    """ZODB.utils.newTid(old): a time stamp later than `old` whatever the clock says (A-TIMESTAMP:
+    TimeStamp.laterThan; the same computation as BaseStorage.tpc_begin, proved there)"""
+    func = 'ZODB.utils:newTid'
+    props = ()
+    verify = False
+    assumptions = ('A-TIMESTAMP (utils.newTid): the result is later than the given tid whatever the clock returns',)
+
+    def outcomes(self, c, E):
+        def mk(cc, E):
+            t = z3.Int(fresh_name('newtid'))
+            old = E['old']
+            lo = bytes_num(cc, old) if isinstance(old, VBytes) and old.conc_len() == 8 else z3.IntVal(-1)
+            cc.assume(z3.And(t > lo, t >= 0, t < 2 ** 63))
+            return num_to_bytes(cc, t, 8, 'newtid')
+        return [Outcome('tid', result=mk)]
+
+
 class DemoTpcBegin(DemoSpec):
     func = 'ZODB.DemoStorage:DemoStorage.tpc_begin'
     props = ('C16', 'C05')
@@ -497,7 +527,7 @@ class DemoTpcBegin(DemoSpec):
         g = c.ghost['demo']
         return {(g['clock'].id, 'held'), (g['self'].id, '_transaction'),
                 (g['self'].id, '_stored_oids'), (g['resolved'].id, 'len'),
-                (g['changes'].id, 'in_txn')}
+                (g['changes'].id, 'in_txn'), (g['changes'].id, 'pending_tid')}
 
     def outcomes(self, c, E):
         g = c.ghost['demo']
@@ -513,10 +543,18 @@ class DemoTpcBegin(DemoSpec):
                     ('storage-lock-released', c.obj(g['lock']).f['held'] == 0),
                     ('delegate-in-transaction-iff-we-are',
                      c.obj(g['changes']).f['in_txn'] == z3.BoolVal(bool(mine)))]
+        base_last0 = c.obj(g['base']).f['ltid']
+        changes_last0 = c.obj(g['changes']).f['ltid']
+
+        def begun(c, E, r):
+            p = c.obj(g['changes']).f['pending_tid']
+            return lockinv(c, E, r) + [
+                ('LAYER_ORDER.transaction-id-chosen-later-than-both-layers',
+                 z3.And(p > base_last0, p > changes_last0))]
         if dup:
             return [Outcome('duplicate', 'raise', StorageTransactionError,
                             post=lambda c, E, r: [('lock-untouched', c.obj(g['clock']).f['held'] == 1)])]
-        return [Outcome('ok', post=lockinv),
+        return [Outcome('ok', post=begun),
                 Outcome('delegate-refuses', 'raise', 'ZODB.POSException:StorageError', post=lockinv)]
 
 
@@ -573,6 +611,15 @@ class DemoTpcFinish(DemoSpec):
             c.assume(t.t != g['txn'].t)
         return {'self': g['self'], 'transaction': t}
 
+    def requires(self, c, E):
+        # established by tpc_begin (post LAYER_ORDER.transaction-id-chosen-later-than-both-layers) for
+        # every transaction begun WITHOUT an explicit tid; the base layer is not written in between
+        g = c.ghost['demo']
+        p = c.obj(g['changes']).f['pending_tid']
+        return DemoSpec.requires(self, c, E) + [
+            ('LAYER_ORDER.pending-transaction-id-later-than-both-layers',
+             z3.And(p > c.obj(g['base']).f['ltid'], p > c.obj(g['changes']).f['ltid']))]
+
     def modifies(self, c, E):
         g = c.ghost['demo']
         return {(g['clock'].id, 'held'), (g['self'].id, '_transaction'),
@@ -613,5 +660,5 @@ class DemoTpcFinish(DemoSpec):
                             c.obj(g['issued']).f['dom'] == iss0))])]
 
 
-SPECS = [DemoLoadBefore, DemoStore, DemoNewOid, DemoTpcBegin, DemoTpcAbort, DemoTpcFinish]
+SPECS = [DemoLoadBefore, DemoStore, DemoNewOid, NewTid, DemoTpcBegin, DemoTpcAbort, DemoTpcFinish]
 INLINE = ['ZODB.utils:load_current', 'ZODB.utils:p64', 'ZODB.utils:u64']
